@@ -180,6 +180,20 @@ func run(m *mux.ServeMux, doc string, enc *recEnc, eofWithLast bool) (err error,
 	return
 }
 
+// stanzaNSBody is stanzaBody over a second, small universe: children that
+// inherit the stanza namespace (body, show ...) and the patterns that match
+// them exactly, by local name, by that namespace and by type only.
+func stanzaNSBody(kind string, maxChildren int) nd.Body {
+	inner := stanzaBody(kind, maxChildren)
+	nBody := xml.Name{Space: ns, Local: "body"}
+	return func(c *nd.Ctx) nd.Result {
+		payloadPats = []xml.Name{nBody, {Local: "body"}, {Space: ns}, {}}
+		childDocs = []string{`<body>hi</body>`, `<show>away</show>`, `<a xmlns="n1">x<i/></a>`, `<body xmlns="n1"/>`, `text`}
+		childNames = []xml.Name{nBody, {Space: ns, Local: "show"}, nA, {Space: "n1", Local: "body"}, {}}
+		return inner(c)
+	}
+}
+
 func stanzaBody(kind string, maxChildren int) nd.Body {
 	types := map[string][]string{"iq": iqTypes, "message": msgTypes, "presence": presTypes}[kind]
 	return func(c *nd.Ctx) nd.Result {
@@ -203,7 +217,8 @@ func stanzaBody(kind string, maxChildren int) nd.Body {
 		}
 		prog := c.Choose(6, "read-program")
 		from := ""
-		if kind == "iq" {
+		if kind == "iq" && c.Choose(2, "iq-has-from") == 0 {
+			// (without a from: the usual shape of a request from one's own server)
 			from = "juliet@example.com/r"
 		}
 		doc := stanzaDoc(kind, typ, children, from)
@@ -319,7 +334,7 @@ func stanzaBody(kind string, maxChildren int) nd.Body {
 				ty, _ := r.AttrVal("", "type")
 				id, _ := r.AttrVal("", "id")
 				to, _ := r.AttrVal("", "to")
-				if r.Name.Local != "iq" || ty != "error" || id != "i1" || to != "juliet@example.com/r" || !strings.Contains(r.String(), "service-unavailable") {
+				if r.Name.Local != "iq" || ty != "error" || id != "i1" || to != from || !strings.Contains(r.String(), "service-unavailable") {
 					return fail("default-reply-wrong", "unhandled %s IQ: wrote %s", typ, out)
 				}
 			} else if len(enc.toks) != 0 && typ != "" {
@@ -520,6 +535,8 @@ func init() {
 				{Name: "message", Body: stanzaBody("message", k), CutDepth: 6, Budget: b},
 				{Name: "presence", Body: stanzaBody("presence", k), CutDepth: 6, Budget: b},
 				{Name: "iq", Body: stanzaBody("iq", k), CutDepth: 6, Budget: b},
+				{Name: "message-ns", Desc: "children that inherit the stanza namespace (body, show) against exact, local-name, namespace and type-only patterns", Body: stanzaNSBody("message", k), CutDepth: 6, Budget: b},
+				{Name: "presence-ns", Desc: "the same for presences", Body: stanzaNSBody("presence", k), CutDepth: 6, Budget: b},
 				{Name: "top-level", Body: topBody, CutDepth: 4, Budget: b},
 				{Name: "registration", Body: regBody, Workers: 1, Budget: b},
 			}
